@@ -1,5 +1,6 @@
 //! hv-core: drivers and replayers for the parts of Elvis that need only `elvis-core`.
 mod arph;
+mod dnsh;
 mod ipfrag;
 mod iptab;
 mod linkh;
@@ -29,6 +30,7 @@ fn main() {
         "link-drive" => linkh::drive(&args),
         "udp-drive" => udph::drive(&args),
         "arp-drive" => arph::drive(&args),
+        "dns-drive" => dnsh::drive(&args),
         "reasm-drive" => ipfrag::reasm_drive(&args),
         other => {
             eprintln!("unknown command {other}");
